@@ -18,7 +18,7 @@ CHECKS = {
    note=SEQ_NOTE),
  "C02": dict(engine="seq", cat="model_checking", ref="§4 C02, §2.3",
    technique="explicit-state BFS over CAS histories on the real code with a token-uniqueness/iff oracle",
-   text="All histories up to the bound of stores/RMW/deletes with CAS in {0,current,stale1,stale2,current+1,MAX,arbitrary} on 2 keys incl. expiry and re-creation; oracle: succeeds iff CAS matches, failure = 0x02 and bit-identical entry, new token non-zero, never carried before in the lifetime, and equal to what the store then holds.",
+   text="All histories up to the bound of stores/RMW/deletes with CAS in {0,current,stale1,stale2,current+1,MAX,arbitrary} on 2 keys incl. expiry and re-creation; oracle: succeeds iff CAS matches, failure = 0x02 and bit-identical entry, new token non-zero, never carried before in the lifetime, and equal to what the store then holds. A second configuration runs CAS-carrying stores that also carry a TTL on a server whose clock is at 100 s.",
    note=SEQ_NOTE),
  "C05": dict(engine="seq+sched", cat="model_checking", ref="§4 C05, §2.3",
    technique="explicit-state BFS over TTL/clock/flush histories on the real code under an injected Timer, must-hit/must-miss window oracle",
@@ -30,11 +30,11 @@ CHECKS = {
    note=SEQ_NOTE),
  "C07": dict(engine="seq", cat="model_checking", ref="§4 C07, §2.3",
    technique="explicit-state BFS over counter histories on the real code with a u64 arithmetic oracle",
-   text="All histories up to the bound over 13 stored texts (u64 extremes, leading zeros, signs, blanks, empty, non-UTF-8) x delta/initial/expiration/CAS extremes; oracle: (v+d) mod 2^64, max(v-d,0), 8-byte BE response, stored decimal text, flags kept, creation/0xffffffff rule, non-numeric = 0x06 and unchanged.",
+   text="All histories up to the bound over 13 stored texts (u64 extremes, leading zeros, signs, blanks, empty, non-UTF-8) x delta/initial/expiration/CAS extremes; oracle: (v+d) mod 2^64, max(v-d,0), 8-byte BE response, stored decimal text, flags kept, creation/0xffffffff rule, non-numeric = 0x06 and unchanged; zero-padded texts of 20, 21 and 40 characters; quiet incr/decr (errors still answered).",
    note=SEQ_NOTE),
- "C08": dict(engine="seq", cat="model_checking", ref="§4 C08, §2.3",
+ "C08": dict(engine="seq+sched", cat="model_checking", ref="§4 C08, §2.3",
    technique="explicit-state BFS over delete/flush histories on 3 keys on the real code against the exact-removal model",
-   text="All histories up to the bound of set/delete(cas 0, matching, stale)/flush(0, n)/clock/re-store on 3 keys; oracle: delete removes exactly the addressed key, 0x01 absent, 0x02 and unchanged on mismatch, immediate flush empties the store, delayed flush deadline holds, later stores unaffected.",
+   text="All histories up to the bound of set/delete(cas 0, matching, stale)/flush(0, n)/clock/re-store on 3 keys; oracle: delete removes exactly the addressed key, 0x01 absent, 0x02 and unchanged on mismatch, immediate flush empties the store, delayed flush deadline holds, later stores (also CAS re-stores while a delayed flush is pending) unaffected. Second part (E1): delete with cas 0 / matching / stale against every schedule of a concurrent set, cas-set, get, flush or a command on another key of the same shard, all initial states, linearizability.",
    note=SEQ_NOTE),
 }
 
@@ -45,11 +45,11 @@ SCHED_NOTE = ("Trusted: shuttle 0.9.3's execution engine (one task at a time, bl
 CHECKS.update({
  "C03": dict(engine="sched", cat="model_checking", ref="§4 C03, §2.2",
    technique="stateless DFS over all thread schedules (preemption-bounded, iterated until no alternative is pruned) of the real store under a controlled scheduler, brute-force linearizability oracle",
-   text="For every program of 2-3 clients x 1-2 of {get,set,cas-set(current),cas-set(stale),delete,delete(cas)} on one key and each initial state (absent, present, present-but-expired) every schedule at lock/atomic granularity is executed on the real MemoryStore through real BinaryHandlers; each execution's call/return history and final content must be explained by a sequential order (linearizability). Quick: 2x1 all schedules, 3x1 bound 2-3; thorough: all families until saturation (every schedule).",
+   text="For every program of 2-3 clients x 1-2 of {get,set,cas-set(current),cas-set(stale),delete,delete(cas)} on one key and each initial state (absent, present, present-but-expired) every schedule at lock/atomic granularity is executed on the real MemoryStore through real BinaryHandlers; each execution's call/return history and final content must be explained by a sequential order (linearizability), and the CAS values acknowledged to mutations of one key inside a concurrent phase must be pairwise distinct; the alphabet includes stores that write the very bytes already stored (colliding values). Quick: 2x1 all schedules, 3x1 bound 2-3; thorough: all families until saturation (every schedule).",
    note=SCHED_NOTE),
  "C04": dict(engine="sched", cat="model_checking", ref="§4 C04, §2.2",
    technique="stateless DFS over all thread schedules of the real store under a controlled scheduler, brute-force linearizability oracle",
-   text="Same engine as C03 with add/replace/append/prepend/incr/decr added (values chosen so lost updates are visible). The unchanged tree violates this property for 41 (state, command pair) combinations because these commands are get-then-set; they are listed as known findings, every other pair/triple must be linearizable.",
+   text="Same engine as C03 with add/replace/append/prepend/incr/decr added (values chosen so lost updates are visible). The unchanged tree violates this property for 41 (state, command pair) combinations because these commands are get-then-set; they are listed as known findings, every other pair/triple must be linearizable. The 2x1 family is run both on the bare store and behind the random eviction policy (unreachable limit).",
    note=SCHED_NOTE),
  "C14": dict(engine="seq+sched", cat="model_checking", ref="§4 C14, §2.2, §2.3",
    technique="explicit-state BFS over histories with every eviction victim enumerated (RNG seam) + stateless DFS over all schedules of concurrent stores, bound checked on the dump",
@@ -76,7 +76,7 @@ CHECKS.update({
    note=NET_NOTE),
  "C12": dict(engine="net", cat="model_checking", ref="§4 C12, §2.5",
    technique="exhaustive enumeration of pipelined request streams over all opcodes (depth 2, thorough 3, quit/quitq at every position) on real loopback TCP, validated by the sequential specification",
-   text="Every stream of 1-2 (thorough 3) requests over a 46-element alphabet (every opcode 0x00-0x24 with hit/miss and success/error operands, loud/quiet, unimplemented, undefined) plus every stream with quit/quitq in the middle, sent in one segment and byte-at-a-time; responses are matched by opaque in order: exactly one per loud known opcode, quiet only on error/hit, quit answered then EOF, quitq EOF without answer, nothing after either executed (final store compared).",
+   text="Every stream of 1-2 (thorough 3) requests over a 48-element alphabet (incl. oversized set/setq, also delivered in three pieces cut inside the body) (every opcode 0x00-0x24 with hit/miss and success/error operands, loud/quiet, unimplemented, undefined) plus every stream with quit/quitq in the middle, sent in one segment and byte-at-a-time; responses are matched by opaque in order: exactly one per loud known opcode, quiet only on error/hit, quit answered then EOF, quitq EOF without answer, nothing after either executed (final store compared).",
    note=NET_NOTE),
  "C13": dict(engine="net", cat="model_checking", ref="§4 C13, §2.5",
    technique="exhaustive grid limit x body length x opcode x pipeline position x bytes-already-buffered x buffer-pregrown on real loopback TCP against an in-process reference",
@@ -95,7 +95,7 @@ CHECKS.update({
 CHECKS.update({
  "C10": dict(engine="grid+net", cat="exploration", ref="§4 C10, §2.4",
    technique="exhaustive boundary-grid enumeration of header fields x bytes available x store state through the real decode/handle/encode path under catch_unwind (overflow checks on), plus a socket sub-grid with virtual-time silence",
-   text="About 0.5 M distinct headers (opcode 0..255 x key/extras/body lengths around every limit x bytes available x CAS extremes x stored value x incr/decr operand extremes, wrong magic/data type): no panic, the decoder makes progress or waits or fails, a header invalid by the property's list is never executed (no success response, store unchanged), buffer capacity stays below limit+24+4096; 19 k of them replayed over real TCP with 61 s of virtual silence: no task panic, connection closed, server still serving. Exhaustive over the grid, not over all byte strings (random bytes are sampling and outside this technique).",
+   text="About 0.5 M distinct headers (opcode 0..255 x key/extras/body lengths around every limit x bytes available x CAS extremes x stored value x incr/decr operand extremes, wrong magic/data type): no panic, the decoder makes progress or waits or fails, a header invalid by the property's list is never executed (no success response, store unchanged), buffer capacity stays below limit+24+4096; 19 k of them replayed over real TCP with 61 s of virtual silence: no task panic, connection closed, server still serving; oversized bodies delivered in three pieces with pipelined followers (no panic in the discard loop); oversized bodies streamed in 512-byte reads (buffered bytes stay below limit+24+4096). Exhaustive over the grid, not over all byte strings (random bytes are sampling and outside this technique).",
    note="Trusted: the harness profile really has overflow-checks on (profile.dev in mc/Cargo.toml); panic capture via a process-wide hook. " + NET_NOTE),
  "C11": dict(engine="seq", cat="model_checking", ref="§4 C11, §2.3",
    technique="explicit-state BFS over histories of every opcode x every outcome on the real code; every encoded response re-parsed by an independent parser",
